@@ -161,8 +161,26 @@ func (P *Program) typeInvImmutable(prop string) []*Obligation {
 	return out
 }
 
+// propAssumptions: what the per-function proof leaves to the composition across goroutines.
 func propAssumptions(prop string) []string {
-	return nil
+	actor := "A-ACT: a closure sent on a bar's or the container's operateState/interceptIO channel is run exactly once, alone, by the goroutine that owns the state (the serve loops are verified to do that for one iteration; that no other goroutine touches the state is the frame conditions of every other function)"
+	chans := "channel-role invariants are proved at every send and assumed at every receive; clauses marked `assume` on a channel role are assumed outright"
+	live := "termination of blocking operations (send/receive/WaitGroup.Wait/select) is not proved: liveness across goroutines is outside the contract language (C01, C16 not applicable)"
+	switch prop {
+	case "C08":
+		return []string{"float64 operations are correctly rounded reals with relative error 2^-53 (no NaN/Inf in the proved ranges); math.Round by integer witness"}
+	case "C20":
+		return []string{"float64 operations are correctly rounded reals with relative error 2^-53; strconv/fmt formatting under assumed contracts; time.Since(start) > 0"}
+	case "C07":
+		return []string{"display width dw is an additive abstract measure; runewidth/stripansi under assumed contracts; user-supplied meta functions preserve display width"}
+	case "C19":
+		return []string{actor, "the wrapped reader/writer is arbitrary (havoc under its interface contract)"}
+	case "C09", "C11":
+		return []string{actor}
+	case "C10":
+		return []string{actor, chans, "data-race freedom is argued from per-function write frames, not from a model of the Go memory model"}
+	}
+	return []string{actor, chans, live}
 }
 
 // funcTypeFrames: behavioural subtyping on frames for named function types with a contract
